@@ -305,6 +305,29 @@ fn gen_value(rng: &mut Rng) -> Vec<u8> {
         2 => b"bad\x00value".to_vec(),
         3 => b"ctl\x01\x1fvalue".to_vec(),
         4 => b"del\x7f".to_vec(),
+        5..=8 => {
+            // CR, LF, NUL (and the other bytes a lenient "trim" would eat) at either edge of, in
+            // the middle of, or as the whole of an otherwise legal value
+            let bad: &[u8] = match rng.below(6) {
+                0 => b"\r",
+                1 => b"\n",
+                2 => b"\r\n",
+                3 => b"\x00",
+                4 => b"\n\x0c",
+                _ => b"\x0b\r",
+            };
+            let mut v = if rng.chance(1, 5) { Vec::new() } else { msggen::gen_value(rng) };
+            v.retain(|b| !matches!(*b, 0 | b'\r' | b'\n'));
+            let at = match rng.below(3) {
+                0 => 0,
+                1 => v.len(),
+                _ => rng.usize(v.len() + 1),
+            };
+            for (i, b) in bad.iter().enumerate() {
+                v.insert(at + i, *b);
+            }
+            v
+        }
         _ => msggen::gen_value(rng),
     }
 }
